@@ -288,6 +288,19 @@ Theorem C17_completion_dotted :
     definition_dotted ws c m p id = definition_dotted ws c m p' id'.
 Proof. exact dotted_ci. Qed.
 
+(* the operand itself in any letter case (inside one workspace): the same static class, hence the same proposals
+   and links; in particular the comparison "left type spelled exactly as the class being annotated"
+   (for_class_or_module) is harmless, both branches reach the same table *)
+Theorem C17_operand_spelling :
+  forall ws c m p p' id id', Forall2 item_ci p p' -> upper id = upper id' ->
+    static_class ws c m p = static_class ws c m p' /\
+    completion_dotted ws c m p = completion_dotted ws c m p' /\
+    definition_dotted ws c m p id = definition_dotted ws c m p' id'.
+Proof.
+  intros ws c m p p' id id' Hp Ei. split; [apply static_class_ci; exact Hp|].
+  apply dotted_spelling_ci; assumption.
+Qed.
+
 Example C17_completion_nonvacuous :
   complete_after_dot ws3 s_aLeaf = [s_Fb; s_Run; s_FA; s_cA; s_Ga; s_Link] /\
   completion_member ws3 (upper s_aMid) (Some s_Ga) (upper s_aLeaf) = [s_Fb; s_Run; s_FA; s_cA; s_Ga; s_Link] /\
@@ -355,6 +368,7 @@ Print Assumptions C17_class_index.
 Print Assumptions C17_resolution_nonvacuous.
 Print Assumptions C17_completion.
 Print Assumptions C17_completion_dotted.
+Print Assumptions C17_operand_spelling.
 Print Assumptions C17_completion_nonvacuous.
 Print Assumptions C17_hierarchy.
 Print Assumptions C17_hierarchy_nonvacuous.
